@@ -406,7 +406,7 @@ func engineResources(thorough bool) {
 func engineSmall() {
 	n := 0
 	strs := []string{"", "x"}
-	optsets := [][]string{nil, {}, {"ro"}, {"rbind", "rshared", ""}}
+	optsets := [][]string{nil, {}, {"ro"}, {"rbind", "rshared", ""}, {"rshared", "ro"}, {"rbind", "rslave", "ro", "rprivate", "nosuid"}, {"rprivate"}}
 	for _, dst := range strs {
 		for _, typ := range strs {
 			for _, src := range strs {
@@ -427,6 +427,21 @@ func engineSmall() {
 					m2 := api.FromOCIMounts([]rspec.Mount{m.ToOCI(nil)})[0]
 					if m.Destination != m2.Destination || m.Type != m2.Type || m.Source != m2.Source || fmt.Sprint(m.Options) != fmt.Sprint(m2.Options) {
 						fail("mount-nri-oci-nri", "mount %v became %v", m, m2)
+					}
+					// with a propagation query: the same mount, and the query holds the last propagation option
+					var q string
+					o3 := m.ToOCI(&q)
+					wantQ := ""
+					for _, op := range opts {
+						if op == "rprivate" || op == "rshared" || op == "rslave" {
+							wantQ = op
+						}
+					}
+					if o3.Destination != m.Destination || o3.Type != m.Type || o3.Source != m.Source || fmt.Sprint(o3.Options) != fmt.Sprint(m.ToOCI(nil).Options) {
+						fail("mount-with-propagation-query", "mount %v converted with a propagation query became %+v (without: %+v)", m, o3, m.ToOCI(nil))
+					}
+					if q != wantQ {
+						fail("mount-propagation-query", "mount %v: propagation reported as %q, expected %q", m, q, wantQ)
 					}
 					if len(opts) > 0 && len(m2.Options) > 0 && &m2.Options[0] == &m.Options[0] {
 						fail("mount-aliases", "converted mount shares its options slice with the source")
